@@ -413,6 +413,71 @@ def run_a3x(case, acc, order):
             m.close()
 
 
+def run_a3t(case, acc, order):
+    """Two extractions of the spike-waveform store on one model (another count, another draw): the
+    features then come from the second store - the one on disk."""
+    from phylib.io.model import load_model
+    spec = {'features': 'absent', 'tfeatures': 'absent', 'raw': True, 'fill': case['fill'], 'n_spikes': 12,
+            'n_templates': 3, 'whitening': 'identity', 'n_channels': 4, 'n_raw': 80}
+    with core.Scratch() as d:
+        tr = dsgen.make_dataset(d / 'ds', spec)
+        m = load_model(tr['params_path'])
+        orig = np.random.choice
+        try:
+            acc.state()
+            try:
+                np.random.choice = lambda a, size=None, replace=True, p=None: np.asarray(a)[:size][::-1]
+                m.save_spikes_subset_waveforms(max_n_spikes_per_template=case['first'])
+                np.random.choice = lambda a, size=None, replace=True, p=None: np.asarray(a)[-size:]
+                m.save_spikes_subset_waveforms(max_n_spikes_per_template=case['second'])
+            finally:
+                np.random.choice = orig
+            W = np.load(str(d / 'ds' / '_phy_spikes_subset.waveforms.npy'))
+            chans = np.load(str(d / 'ds' / '_phy_spikes_subset.channels.npy'))
+            ids = np.load(str(d / 'ds' / '_phy_spikes_subset.spikes.npy'))
+            nsw = W.shape[1]
+            bad = None
+            sw = m.spike_waveforms
+            if sw is None or not np.array_equal(np.asarray(sw.spike_ids), ids) or \
+                    not np.array_equal(np.asarray(sw.spike_channels), chans) or \
+                    not np.array_equal(np.asarray(sw.waveforms), W):
+                bad = ('store-held-by-the-model-differs-from-the-files', describe(ids),
+                       describe(np.asarray(sw.spike_ids)) if sw is not None else None)
+            acc.step(True, 'a3t:held-store')
+            if not bad:
+                for sreq, creq in ((list(range(len(ids))), [1, 3]), (list(range(len(ids)))[::-1], [0, 2, 1])):
+                    Wr = np.zeros((len(sreq), nsw, len(creq)))
+                    for a, i in enumerate(sreq):
+                        for b, ch in enumerate(creq):
+                            for k in range(chans.shape[1]):
+                                if chans[i, k] == ch:
+                                    Wr[a, :, b] = W[i, :, k]
+                    F, gaps = ref_pca(Wr)
+                    try:
+                        got = m.get_features(ids[sreq], np.array(creq))
+                    except Exception as e:
+                        got = e
+                    acc.step(True, 'a3t:features')
+                    ok = isinstance(got, np.ndarray) and got.shape == F.shape
+                    if ok and min(gaps) >= 1e-6:
+                        for c in range(F.shape[1]):
+                            for kk in range(3):
+                                a_, b_ = np.asarray(got[:, c, kk], dtype=np.float64), F[:, c, kk]
+                                tol = 1e-4 * max(1.0, float(np.abs(b_).max()))
+                                if not (np.allclose(a_, b_, rtol=1e-4, atol=tol) or
+                                        np.allclose(a_, -b_, rtol=1e-4, atol=tol)):
+                                    ok = False
+                    if not ok:
+                        bad = ('features-after-second-extraction', describe(F), describe(got))
+                        break
+            if bad:
+                sig = '%s/pca-features/two-extractions/%s' % (PROP, bad[0])
+                acc.violation(sig, core.make_record(PROP, 'pca-features', sig, case=case, expected=bad[1],
+                                                    observed=bad[2]), order)
+        finally:
+            m.close()
+
+
 WIDE_ROWS = [[10, 200, 37, 150], [300, 301, 302, 303], [5, 6, 7, 8], [150, 10, 383, 0]]
 WIDE_REQ = [150, 0, 24, 48, 72, 96, 120, 10, 168, 192, 216, 240, 264, 288, 312, 383]
 
@@ -442,7 +507,7 @@ def run_a1w(case, acc, order):
                 return
 
 
-RUN = {'a1': run_a1, 'a2': run_a2, 'a3': run_a3, 'a3x': run_a3x, 'a1w': run_a1w}
+RUN = {'a1': run_a1, 'a2': run_a2, 'a3': run_a3, 'a3x': run_a3x, 'a1w': run_a1w, 'a3t': run_a3t}
 
 
 def run_case(case, acc, order):
@@ -509,6 +574,7 @@ def explore(ctx):
     cases = [{'kind': 'a3', 'n_sub': n, 'variant': v, 'fill': ctx.seed}
              for n in (4, 5, 6, 7) for v in range(5 if ctx.thorough else 3)]
     cases += [{'kind': 'a3x', 'mode': mo, 'fill': ctx.seed} for mo in ('big', 'mixed')]
+    cases += [{'kind': 'a3t', 'first': a, 'second': b, 'fill': ctx.seed} for a, b in ((1, 3), (3, 1), (2, 2))]
     cases += [{'kind': 'a1w', 'n_spikes': n} for n in ((2, 3, 4, 5) if ctx.thorough else (2, 3, 4))]
     ctx.run_cases(run_case, cases, chunk=1, sweep='A3-pca-route')
     ctx.bounds = {'A1': {'n_spikes': [0, 1, 2], 'n_loc': [1, 2, 3], 'cols_alphabet': [0, 1, 2, -1],
